@@ -77,7 +77,7 @@ def run_shard(desc, R, tier):
     else:
         for P in (3, 5):
             for K in (1, 2):
-                for nsig in (None, -1, 0, K, P - 1, P, P + 1):
+                for nsig in (None, -1, 0, K, P - 1, P, P + 1, 'np:-1', 'np:%d' % K, 'np:%d' % P, 'np:%d' % (P + 1)):
                     for thr in (None, 2.0):
                         for crit in ('aic', 'mdl'):
                             for meth in ('music', 'ev'):
@@ -114,6 +114,8 @@ def eval_point(pt, R):
     kind = pt['kind']
     if kind == 'valid':
         P, K, nsig, thr, crit, meth = int(pt['P']), int(pt['K']), pt['NSIG'], pt['threshold'], pt['criteria'], pt['method']
+        if isinstance(nsig, str):          # the same value as a numpy integer (what len(), argmin() etc. return)
+            nsig = np.int64(int(nsig[3:]))
         x = signal(4 * P, 16, [3, 7][:K], [1, 2][:K], [0.0, 1.0][:K]) + 0.05 * A.eta(4 * P, True)
         must_raise = (nsig is not None and thr is not None) or (nsig is not None and (nsig < 0 or nsig >= P))
         R.point(pt)
@@ -184,6 +186,22 @@ def eval_point(pt, R):
         R.check(np.all(np.diff(S) <= 1e-12 * S[0]) and int(np.sum(S > 1e-8 * S[0])) == K, 'rank', feats, pt, S, K,
                 'singular values not in non-increasing order or not exactly K non-negligible ones')
     # class forms on the reported axis
+    if kind == 'real' and N in (2 * P, 33):
+        R.calls()
+        try:
+            cls = spectrum.pmusic if meth == 'music' else spectrum.pev
+            o = cls(x, P, NSIG=K, NFFT=nf)
+            pp = np.asarray(o.psd)
+            L = nf // 2 + 1 if nf % 2 == 0 else (nf + 1) // 2
+            ok2 = pp.shape == (L,) and not np.any(np.isnan(pp))
+            if ok2:
+                kb = int(pt['bin'])
+                far = np.ones(L, dtype=bool)
+                far[max(kb - 1, 0):kb + 2] = False
+                ok2 = max(pp[max(kb - 1, 0):kb + 2]) > (np.max(pp[far]) if far.any() else -1)
+            R.check(ok2, 'class_peaks', dict(feats, form='real'), pt, pp, None, 'pmusic/pev (real data): the sinusoid does not dominate on the reported one-sided axis')
+        except Exception as e:
+            R.viol('class_peaks', dict(feats, exc=type(e).__name__), pt, repr(e), None, 'class raised inside its domain')
     if kind == 'cx' and N in (2 * P, 33):
         R.calls()
         try:
